@@ -187,17 +187,27 @@ def make_dataset(recipe, winds=True):
         order[i], order[j] = order[j], order[i]
         da = da.transpose(*order).copy()
     ds = da.to_dataset()
-    rng = np.random.default_rng(int(recipe.get("data", {}).get("seed", 0)) + 7919)
+    rng = np.random.default_rng(int(recipe.get("aux_seed", recipe.get("data", {}).get("seed", 0))) + 7919)   # "aux_seed": two datasets share sites, winds, depths
     if "site" in lead_names:
         ns = dict(dims)["site"]
-        ds["lon"] = (("site",), float(recipe.get("lon0", 150.0)) + np.round(rng.uniform(0, 5, ns), 3))
-        ds["lat"] = (("site",), float(recipe.get("lat0", -30.0)) + np.round(rng.uniform(0, 5, ns), 3))
+        dlon, dlat = np.round(rng.uniform(0, 5, ns), 3), np.round(rng.uniform(0, 5, ns), 3)
+        if recipe.get("origin_site"):
+            dlon[0] = dlat[0] = 0.0            # the first station sits exactly at (lon0, lat0), e.g. (0, 0)
+        ds["lon"] = (("site",), float(recipe.get("lon0", 150.0)) + dlon)
+        ds["lat"] = (("site",), float(recipe.get("lat0", -30.0)) + dlat)
         ds = ds.set_coords(["lon", "lat"])
     if winds:
         shp = lead_shape
         ds["wspd"] = (lead_names, np.round(rng.uniform(3, 25, shp), 2).astype(dtype))
         ds["wdir"] = (lead_names, np.round(rng.uniform(0, 360, shp), 1).astype(dtype))
-        ds["dpt"] = (lead_names, np.round(rng.uniform(8, 400, shp), 1).astype(dtype))
+        depth = recipe.get("depth", "shelf")
+        if depth == "deep":        # open ocean everywhere
+            dpt = np.round(rng.uniform(1500, 5500, shp), 1)
+        elif depth == "mixed":     # from the surf zone to the abyss
+            dpt = np.round(10.0 ** rng.uniform(0.7, 3.7, shp), 1)
+        else:
+            dpt = np.round(rng.uniform(8, 400, shp), 1)
+        ds["dpt"] = (lead_names, dpt.astype(dtype))
     if recipe.get("scalar_lonlat") and "site" in ds.dims and ds.sizes["site"] == 1 and "lon" in ds.coords:
         # a single station whose position is given by scalar lon/lat data variables
         lo, la = float(ds["lon"].values[0]), float(ds["lat"].values[0])
@@ -235,10 +245,11 @@ def site_coords(recipe):
     """lon/lat of the sites make_dataset() creates for this recipe."""
     dims = dict((k, n) for k, n in recipe.get("dims", []))
     ns = dims.get("site", 0)
-    rng = np.random.default_rng(int(recipe.get("data", {}).get("seed", 0)) + 7919)
-    lon = float(recipe.get("lon0", 150.0)) + np.round(rng.uniform(0, 5, ns), 3)
-    lat = float(recipe.get("lat0", -30.0)) + np.round(rng.uniform(0, 5, ns), 3)
-    return lon, lat
+    rng = np.random.default_rng(int(recipe.get("aux_seed", recipe.get("data", {}).get("seed", 0))) + 7919)   # "aux_seed": two datasets share sites, winds, depths
+    dlon, dlat = np.round(rng.uniform(0, 5, ns), 3), np.round(rng.uniform(0, 5, ns), 3)
+    if recipe.get("origin_site") and ns:
+        dlon[0] = dlat[0] = 0.0
+    return float(recipe.get("lon0", 150.0)) + dlon, float(recipe.get("lat0", -30.0)) + dlat
 
 
 def describe(recipe):
